@@ -11,7 +11,7 @@ ASSUMPTIONS = [
     "State methods are used through their C01 contracts",
     "the latent variable name is a representative constant 'VAR'",
 ]
-NOT_DECIDED = ["the distribution of the pseudo-random numbers themselves", "mixture branch (softmax-weighted regularity)"]
+NOT_DECIDED = ["the distribution of the pseudo-random numbers themselves"]
 
 
 # ------------------------------------------------------------------------------------------------
